@@ -132,9 +132,27 @@ def strip_comments(src: str) -> str:
     return src
 
 
-def forbidden_hits() -> List[str]:
+def import_closure(modules: List[str]) -> List[Path]:
+    """Lean source files of our package reachable from `modules` through `import CylcModel.…`."""
+    seen, todo = {}, list(modules)
+    while todo:
+        m = todo.pop()
+        if m in seen or not m.startswith('CylcModel'):
+            continue
+        f = LEAN / (m.replace('.', '/') + '.lean')
+        if not f.exists():
+            continue
+        seen[m] = f
+        for mm in re.findall(r'^\s*import\s+([\w\.]+)', f.read_text(), flags=re.M):
+            todo.append(mm)
+    return sorted(seen.values())
+
+
+def forbidden_hits(modules: Optional[List[str]] = None) -> List[str]:
+    """Forbidden tokens in the Lean sources this property depends on (all sources if modules is None)."""
+    files = import_closure(modules) if modules else sorted((LEAN / 'CylcModel').rglob('*.lean'))
     hits = []
-    for f in sorted((LEAN / 'CylcModel').rglob('*.lean')):
+    for f in files:
         body = strip_comments(f.read_text())
         for pat in FORBIDDEN:
             for m in re.finditer(pat, body, flags=re.M):
